@@ -726,7 +726,7 @@ def correspondence(ctx):
     c.extra["preemption_bounded_families"] = bounded
     c.extra["random_schedules"] = done_rand
     c.extra["traces_validated_against_impl"] = c.evaluations
-    c.exhaustive = all(v["complete"] for v in exhaustive_done.values())
+    c.exhaustive = all(v["complete"] for v in list(exhaustive_done.values()) + list(stateful_done.values()))
     return c
 
 
